@@ -7,7 +7,7 @@ CONSTANTS
   PtrLimit = 16384
   ImplBug = "no-depth"
   Count = 1
-  Stride = 7919
+  Stride = 41868361
   Offset = 1
   NS1 = 10
   NMany = 40
